@@ -33,7 +33,7 @@ static inline int deq_kind(struct cds_wfcq_head *h, struct cds_wfcq_tail *t, int
   }
   int v = idx(n);
   h_rem_ret(j, c, v);
-  if ((kind == 2 || kind == 3) && v >= 0 && (st & CDS_WFCQ_STATE_LAST)) rt_gset(HG_USER + 8 + j, 1);
+  if ((kind == 2 || kind == 3) && v >= 0) rt_gset(HG_USER + 8 + j, (st & CDS_WFCQ_STATE_LAST) ? 1 : 2);
   return v;
 }
 static inline void drain(struct cds_wfcq_head *h, struct cds_wfcq_tail *t) {
@@ -45,9 +45,19 @@ static inline void all_checks(void) {
   /* STATE_LAST: the queue was empty right after that dequeue => no other node definitely queued during the whole call */
 #if DEQ == 2 || DEQ == 3
   for (int j = 0; j < H_ND; j++) {
-    if (!rt_gget(HG_USER + 8 + j)) continue;
-    for (int a = 0; a < H_NN; a++) if (a != h_rval(j)) rt_assert(!h_def_present(a, h_rcall(j), h_rret(j)), "STATE_LAST only when the dequeued node was the last one");
-    rt_cover(1, "dequeue reported STATE_LAST");
+    uint64_t fl = rt_gget(HG_USER + 8 + j); int v = h_rval(j);
+    if (!fl) continue;
+    rt_cover(fl == 1, "dequeue reported STATE_LAST");
+    rt_cover(fl == 2, "dequeue without STATE_LAST");
+    if (fl == 1) {
+      for (int a = 0; a < H_NN; a++) if (a != v) rt_assert(!h_def_present(a, h_rcall(j), h_rret(j)), "STATE_LAST only when the dequeued node was the last one");
+    } else {
+      /* not LAST: some node c was queued behind v when v was dequeued */
+      int behind = 0;
+      for (int c = 0; c < H_NN; c++)
+        if (c != v && h_istarted(c) && h_icall(c) < h_rret(j) && h_icall(v) < h_iret(c) && (!h_removed(c) || h_vret(c) > h_rcall(j))) behind = 1;
+      rt_assert(behind, "a dequeue that does not report STATE_LAST left another node in the queue");
+    }
   }
 #endif
   /* enqueue's "was non-empty" result */
